@@ -215,3 +215,41 @@ def r_strides(rule, root=None):
         rule.ok("x86_64 frame: `sub rsp, mem_offset` on entry is undone by `add rsp, mem_offset; pop rbp; ..; ret`")
     else:
         rule.bad("frame|x86", "the x86_64 prologue must subtract mem_offset from rsp and the epilogue add the same amount, pop rbp and return", JIT)
+
+
+def r_narrow_displacements(rule, root=None):
+    """a memory operand written with an 8-bit displacement (`[BYTE base + pos as i8]`) addresses what the
+    full-width form does only while pos < 128: the guard that selects the short form must bound the slot
+    index by 128 / (bytes per slot) for *this* assembler's slot size"""
+    n = 0
+    for kind in AC.ALL:
+        p = AC.path_of(kind)
+        d = A.load(p, root)
+        for name, b in sorted(M.load_builders(p, root).items()):
+            for mac, _h, ins in b.blocks:
+                short = [x for x in ins for o in x.ops if o.kind == "mem" and ("asi8" in o.text.replace(" ", "") or o.text.replace(" ", "").startswith("BYTE"))]
+                if not short:
+                    continue
+                n += 1
+                t = txt(b.fn["body"])
+                m = re.search(r"letpos=\((\d+)\*(\w+)\.try_into\(\)\.unwrap\(\)\);", str(t))
+                conds = [A.norm_cond(c) for c in (A.enclosing_conds(b.fn["body"], mac) or [])]
+                bound = None
+                for c in conds:
+                    mm = re.fullmatch(r"(\w+)<(.+)", c)
+                    if m and mm and mm.group(1) == m.group(2):
+                        e_ = None
+                        for it in d.get("items", []):
+                            if it.get("k") == "Const" and it.get("name") == mm.group(2):
+                                e_ = it.get("e")
+                        bound = M._const_int(d, e_, {}) if e_ is not None else (int(mm.group(2)) if mm.group(2).isdigit() else None)
+                if m is None or bound is None:
+                    rule.bad("disp8|%s|%s|guard" % (kind, name), "%s %s uses an 8-bit displacement (`%r`) without a guard on the slot index the checker can evaluate: beyond 127 bytes the displacement wraps and the load reads before the array" % (kind, name, short[0]), "%s:%d" % (p, short[0].ln))
+                    continue
+                stride = int(m.group(1))
+                if stride * bound <= 128:
+                    rule.ok("%s %s: the short form is used for slots < %d of %d bytes (offsets below 128)" % (kind, name, bound, stride), file=p, line=short[0].ln)
+                else:
+                    rule.bad("disp8|%s|%s|range" % (kind, name), "%s %s uses an 8-bit displacement for slots below %d, but a slot is %d bytes there: slots %d..%d have offsets of 128 or more, which wrap to negative displacements and read before the array" % (kind, name, bound, stride, 128 // stride, bound - 1), "%s:%d" % (p, short[0].ln))
+    if n == 0:
+        rule.ok("no native load / store uses a narrowed (8-bit) displacement")
